@@ -65,6 +65,10 @@ func (r *run) corpus(ctx sdk.Context) error {
 		cl(2, "claim-C", c),
 		cl(0, "claim-A", a),
 		cl(0, "claim-not-owner", b),
+		// an allocation made the way BeginBlock makes it (no transaction around the keeper call)
+		// whose bank send fails (the sender does not hold the coins): nothing may be accrued
+		{Kind: "allocate", Sender: 3, Coins: []*big.Int{bi(0), new(big.Int).Mul(pow10(36), bi(5)), bi(0), bi(0)}, Tag: "direct/allocate-send-fails"},
+		cl(0, "claim-A-after-failed-allocation", a),
 		{Kind: "claim", Sender: 0, Pids: []uint64{}, Tag: "corpus/claim-empty"},
 	}
 	for _, o := range ops {
